@@ -10,16 +10,16 @@ open Rosmar Rosmar.Sql
 /-! ### Add / AddRaw -/
 
 theorem tie_add (cid : Nat) (k val : String) (exp : Nat) (isJSON : Bool) (newCas now : Nat) (old : Option Row) :
-    Collection_add_INSERT_0.exec
+    ups_cas_collection_exp_isJSON_key_revSeqNo_value__set_cas_exp_isJSON_revSeqNo_tombstone0_value_xattrsN__if_tombstoneNot0.exec
         (env [("c.id", .int cid), ("key", .text k), ("val", .text val), ("$cas", .int newCas),
               ("exp", .int (absExp now exp)), ("isJSON", ofBool isJSON)]) (old.map (enc cid k))
       = match addRow k exp val isJSON newCas now old with
         | .inr (some r', _, _) => { row := some (enc cid k r'), affected := 1 }
         | _ => { row := old.map (enc cid k), affected := 0 } := by
   cases old with
-  | none => simp [Collection_add_INSERT_0, Upsert.exec, addRow, insertRow, SRow.set, E.eval, env, enc, defaultRow, encV, encX, ofBool]
+  | none => simp [ups_cas_collection_exp_isJSON_key_revSeqNo_value__set_cas_exp_isJSON_revSeqNo_tombstone0_value_xattrsN__if_tombstoneNot0, Upsert.exec, addRow, insertRow, SRow.set, E.eval, env, enc, defaultRow, encV, encX, ofBool]
   | some r =>
     cases ht : r.tomb <;>
-    simp [Collection_add_INSERT_0, Upsert.exec, addRow, applySets, SRow.set, SRow.get, E.eval, env, enc, encV, encX, ofBool, SV.truthy, SV.same, ht]
+    simp [ups_cas_collection_exp_isJSON_key_revSeqNo_value__set_cas_exp_isJSON_revSeqNo_tombstone0_value_xattrsN__if_tombstoneNot0, Upsert.exec, addRow, applySets, SRow.set, SRow.get, E.eval, env, enc, encV, encX, ofBool, SV.truthy, SV.same, ht]
 
 end Rosmar.Gen.Sql
